@@ -8,7 +8,7 @@
 //!   only boundary classes: the constructors are called on every tuple.
 //!   Additionally: all 256 opcode bytes through `Opcode::try_from`; and the real
 //!   `Interpreter::instruction` on (every opcode byte) x (argument words with <= 1 set
-//!   bit (quick) / <= 2 set bits (thorough), plus all-ones) for parser acceptance.
+//!   bit (quick) / <= 3 set bits (thorough), plus all-ones) for parser acceptance.
 //!
 //! Reference (independent of fuel-asm's decoder):
 //!   * opcode table (byte, NAME, constructor name, argument kinds) parsed at RUN TIME
@@ -36,11 +36,12 @@
 //!   short    `op::xxx(literal args)` (the panicking short-hand constructors) likewise;
 //!   interp   the interpreter's argument parser, i.e. the two steps of
 //!            `instruction_inner`/`execute_op!` (`Opcode::try_from(byte)` then
-//!            `op::XXX::from_raw_args([b1,b2,b3])`), accepts exactly the reference-valid
-//!            words and yields the same instruction as the general decoder.
+//!            `op::XXX::from_raw_args([b1,b2,b3])`), agrees with the general decoder:
+//!            same acceptance, same instruction value (as the statement says; a
+//!            decoder that is itself wrong is reported under `accept`/`unpack`).
 //!   vm       (`Interpreter::instruction`, real code path) fails with
-//!            `PanicReason::InvalidInstruction` <=> the reference rejects the word
-//!            (the only two producers of that reason are the opcode and argument
+//!            `PanicReason::InvalidInstruction` <=> the general decoder rejects the
+//!            word (the only two producers of that reason are the opcode and argument
 //!            parsers in executors/instruction.rs).
 //!
 //! Per-type API (`unpack`, `new`, `from_raw_args`, `op::xxx`) cannot be called
@@ -360,6 +361,8 @@ struct Tables {
 
 const NO_ROW: usize = usize::MAX;
 const MAX_KINDS: usize = 16;
+/// kind slot of violation classes that are not per argument kind
+const NO_KIND: u8 = 0xff;
 
 fn subject_lib_rs() -> std::path::PathBuf {
     vcore::run::root().join("subject/fuel-asm/src/lib.rs")
@@ -633,10 +636,14 @@ fn check_name(ck: u8) -> &'static str {
 
 fn detail_name(ck: u8, d: u8) -> String {
     match ck {
-        CK_ACCEPT | CK_INTERP | CK_VM => match d {
+        CK_ACCEPT => match d {
             0 => "accepts-nonzero-reserved-bits".into(),
             1 => "accepts-undefined-opcode".into(),
-            2 => "rejects-valid-word".into(),
+            _ => "rejects-valid-word".into(),
+        },
+        CK_INTERP | CK_VM => match d {
+            0 => "accepts-word-the-decoder-rejects".into(),
+            1 => "rejects-word-the-decoder-accepts".into(),
             _ => "value-differs-from-decoder".into(),
         },
         CK_BYTES => "differs-from-u32-decoder".into(),
@@ -751,18 +758,13 @@ fn check_word(t: &Tables, w: u32, acc: &mut Acc) {
         };
         acc.hit(CK_ACCEPT, kind, d, w);
     }
-    if interp.is_some() != ref_ok {
-        let d = match rf {
-            Ref::Reserved => 0,
-            Ref::Undefined => 1,
-            Ref::Valid(_) => 2,
-        };
-        acc.hit(CK_INTERP, kind, d, w);
-    }
-    if let (Some(a), Some(b)) = (&dec, &interp) {
-        if a != b {
-            acc.hit(CK_INTERP, kind, 3, w);
-        }
+    // the statement asks for agreement with the general decoder (acceptance and value)
+    // (one generic function => the key does not carry the argument kind)
+    match (&interp, &dec) {
+        (Some(_), None) => acc.hit(CK_INTERP, NO_KIND, 0, w),
+        (None, Some(_)) => acc.hit(CK_INTERP, NO_KIND, 1, w),
+        (Some(a), Some(b)) if a != b => acc.hit(CK_INTERP, NO_KIND, 2, w),
+        _ => {}
     }
     match dec {
         Some(inst) => {
@@ -909,12 +911,10 @@ fn check_vm_word(t: &Tables, w: u32, acc: &mut Acc) -> String {
     let mut vm = vmkit::vm_for_script(&[op::ret(RegId::ONE)], vec![], 1_000_000);
     let step = vmkit::inject_raw(&mut vm, w);
     let rejected = step.panic_reason() == Some(PanicReason::InvalidInstruction);
-    let rf = ref_decode(t, w);
-    let kind = t.lay[(w >> 24) as usize].kind;
-    match (rejected, rf) {
-        (false, Ref::Reserved) => acc.hit(CK_VM, kind, 0, w),
-        (false, Ref::Undefined) => acc.hit(CK_VM, kind, 1, w),
-        (true, Ref::Valid(_)) => acc.hit(CK_VM, kind, 2, w),
+    let dec_ok = Instruction::try_from(w).is_ok();
+    match (rejected, dec_ok) {
+        (false, false) => acc.hit(CK_VM, NO_KIND, 0, w),
+        (true, true) => acc.hit(CK_VM, NO_KIND, 1, w),
         _ => {}
     }
     step.label()
@@ -1001,7 +1001,11 @@ fn describe(t: &Tables, w: u32) -> String {
 
 fn report(t: &Tables, acc: &Acc, ctx: &Ctx) {
     for ((ck, kind, d), (w, n)) in &acc.viol {
-        let key = format!("C08:{}:{}:{}", check_name(*ck), t.kinds[*kind as usize], detail_name(*ck, *d));
+        let key = if *kind == NO_KIND {
+            format!("C08:{}:{}", check_name(*ck), detail_name(*ck, *d))
+        } else {
+            format!("C08:{}:{}:{}", check_name(*ck), t.kinds[*kind as usize], detail_name(*ck, *d))
+        };
         let mut what = format!("{n} word(s) in this class; smallest: {}", describe(t, *w));
         if *ck == CK_PANIC {
             if let Some((_, m)) = &acc.panic_msg {
